@@ -88,7 +88,8 @@ func (cp *CIDPrimary) Get(blk types.Block) ([]byte, []byte, error) {
 	if err != nil {
 		return nil, nil, err
 	}
-	if key != nil && value != nil {
+	if key != nil {
+		// Found in a write pool. The value may be nil or empty.
 		return key, value, nil
 	}
 	read := make([]byte, CIDSizePrefix+int(blk.Size))
